@@ -159,6 +159,84 @@ class reorder_list_any_length:
     native = False
 
 
+def _cov_clauses(par):
+    """clauses of ReorderCoverage.apply over value.Coverage.glyphs and (if any) the parallel list"""
+    g = lambda v: v.Coverage.glyphs
+    out = {
+        "length-kept": lambda value, old: len(g(value)) == len(g(old.value)),
+        "coverage-sorted-by-glyph-id": lambda value: forall(0, len(g(value)) - 1, lambda i: _gid(g(value)[i]) <= _gid(g(value)[i + 1])),
+        "same-glyphs": lambda value, old, calls: forall(0, len(g(value)), lambda i: g(value)[i] == g(old.value)[_srt(calls).perm(i)]),
+        "nothing-lost": lambda value, old, calls: forall(
+            0, len(g(value)), lambda j: g(value)[_srt(calls).inv(j)] == g(old.value)[j] and 0 <= _srt(calls).inv(j) and _srt(calls).inv(j) < len(g(value))
+        ),
+    }
+    if par:
+        out["parallel-array-moved-with-its-glyphs"] = lambda value, old, calls: len(value.PairSet) == len(old.value.PairSet) and forall(
+            0, len(g(value)), lambda i: value.PairSet[i] == old.value.PairSet[_srt(calls).perm(i)]
+        )
+    return out
+
+
+@contract("nanoemoji.reorder_glyphs.ReorderCoverage.apply", props=["C11"])
+class reorder_coverage_with_parallel_any_length:
+    """Unbounded: the rule object hands the coverage's glyph list and the array named by
+    parallel_list_attr to _sort_by_gid (interpreted from source), so both move by one bijection."""
+
+    args = {
+        "self": Record("nanoemoji.reorder_glyphs.ReorderCoverage", parallel_list_attr=Const("PairSet"), coverage_attr=Const("Coverage")),
+        "font": Obj(getGlyphID=_GID),
+        "value": Obj(Coverage=Obj(glyphs=SeqOf(Str)), PairSet=SeqOf(Int)),
+    }
+    requires = [lambda value: len(value.PairSet) == len(value.Coverage.glyphs)]
+    assumes = ["builtin sorted(): as for sort_by_gid_paired_any_length"]
+    ensures = _cov_clauses(True)
+    native = False
+
+
+@contract("nanoemoji.reorder_glyphs.ReorderCoverage.apply", props=["C11"])
+class reorder_coverage_alone_any_length:
+    args = {
+        "self": Record("nanoemoji.reorder_glyphs.ReorderCoverage", parallel_list_attr=Const(None), coverage_attr=Const("Coverage")),
+        "font": Obj(getGlyphID=_GID),
+        "value": Obj(Coverage=Obj(glyphs=SeqOf(Str))),
+    }
+    assumes = ["builtin sorted(): as for sort_by_gid_paired_any_length"]
+    ensures = _cov_clauses(False)
+    native = False
+
+
+@contract("nanoemoji.reorder_glyphs.ReorderCoverage.apply", props=["C11"])
+class reorder_coverage_mismatched_parallel_raises:
+    """a parallel array of another length than the coverage is never silently mis-paired"""
+
+    args = {
+        "self": Record("nanoemoji.reorder_glyphs.ReorderCoverage", parallel_list_attr=Const("PairSet"), coverage_attr=Const("Coverage")),
+        "font": Obj(getGlyphID=_GID),
+        "value": Obj(Coverage=Obj(glyphs=SeqOf(Str)), PairSet=SeqOf(Int)),
+    }
+    raises = {"AssertionError": lambda value: len(value.PairSet) != len(value.Coverage.glyphs)}
+    native = False
+
+
+@contract("nanoemoji.reorder_glyphs._sort_by_gid", props=["C11"])
+class sort_by_gid_native_crosscheck:
+    """bounded: the real _sort_by_gid and ReorderList.apply under CPython on lists of 0..64
+    glyphs (the unbounded contracts above have no native entry point: ghost permutation)"""
+
+    bounded_only = True
+    gen = H.gen_sort_case
+    native_call = H.run_sort_by_gid
+    n_quick = 40
+    n_thorough = 600
+    ensures = {
+        "coverage-sorted-by-glyph-id": lambda result: result["gids"] == sorted(result["gids"]),
+        "pairing-preserved": lambda result, paired: (not paired) or sorted(zip(result["glyphs"], result["parallel"])) == result["old_pairs"],
+        "same-glyphs": lambda result, names: sorted(result["glyphs"]) == sorted(names),
+        "records-moved-whole-and-ordered": lambda result, names, gids: sorted(result["records"]) == result["old_pairs"]
+        and [dict(zip(names, gids))[g] for g, _ in result["records"]] == sorted(gids),
+    }
+
+
 @contract("nanoemoji.reorder_glyphs.reorder_glyphs", props=["C11"])
 class rules_against_the_spec:
     bounded_only = True
